@@ -1286,9 +1286,82 @@ fn attribute_pairs(st: &mut St) {
          BitPerSecond KilobitPerSecond MegabitPerSecond GigabitPerSecond TerabitPerSecond]);
 }
 
+// ---- units declared on fields of `#[aggregate(direct)]` structs, however the field's
+// `#[metrics(..)]` options are spread over attributes
+mod aggregated_units {
+    use metrique::unit::{Microsecond, Second};
+    use metrique::unit_of_work::metrics;
+    use metrique_aggregation::aggregate;
+    use metrique_aggregation::aggregator::Aggregate;
+    use metrique_aggregation::value::Sum;
+    use std::time::Duration;
+
+    #[aggregate(direct)]
+    #[metrics]
+    #[derive(Clone)]
+    pub struct Calls {
+        #[aggregate(strategy = Sum)]
+        #[metrics(name = "one_attr", unit = Second)]
+        pub a: Duration,
+        #[aggregate(strategy = Sum)]
+        #[metrics(name = "name_then_unit")]
+        #[metrics(unit = Second)]
+        pub b: Duration,
+        #[aggregate(strategy = Sum)]
+        #[metrics(unit = Microsecond)]
+        #[metrics(name = "unit_then_name")]
+        pub c: Duration,
+        #[aggregate(strategy = Sum)]
+        pub plain: Duration,
+    }
+
+    #[metrics]
+    pub struct Request {
+        #[metrics(flatten)]
+        pub calls: Aggregate<Calls>,
+    }
+
+    /// (name, unit as written by the entry, value) of every metric of the aggregated entry
+    pub fn observe(durations_ms: &[u64]) -> Vec<(String, String, f64)> {
+        let mut r = Request { calls: Aggregate::default() };
+        for ms in durations_ms {
+            let d = Duration::from_millis(*ms);
+            r.calls.insert_direct(Calls { a: d, b: d, c: d, plain: d });
+        }
+        let e = metrique_writer::test_util::test_metric(r);
+        let mut v: Vec<(String, String, f64)> = e.metrics.iter().map(|(k, m)| (k.clone(), format!("{:?}", m.unit), m.as_f64())).collect();
+        v.sort_by(|x, y| x.0.cmp(&y.0));
+        v
+    }
+}
+
+fn aggregated_units(v: &mut Violations) -> u64 {
+    let mut n = 0;
+    for ds in [vec![1500u64], vec![1500, 2500], vec![1, 2, 3997]] {
+        n += 1;
+        let total_ms: u64 = ds.iter().sum();
+        let got = aggregated_units::observe(&ds);
+        let want = [("name_then_unit", "Second", total_ms as f64 / 1e3), ("one_attr", "Second", total_ms as f64 / 1e3), ("plain", "Millisecond", total_ms as f64), ("unit_then_name", "Microsecond", total_ms as f64 * 1e3)];
+        for (name, unit, value) in want {
+            let found = got.iter().find(|g| g.0 == name);
+            let ok = matches!(found, Some((_, u, x)) if u.contains(unit) && (x - value).abs() <= value.abs() * 1e-9);
+            if !ok {
+                v.add(
+                    format!("aggregate-direct:declared-unit:{name}"),
+                    format!("#[aggregate(direct)] field `{name}` (durations {ds:?} ms summed): expected {value} in {unit}s, the aggregated entry wrote {found:?}"),
+                    json!({"durations_ms": ds, "field": name, "expected_unit": unit, "expected_value": value, "written": format!("{got:?}")}),
+                );
+            }
+        }
+    }
+    n
+}
+
 fn main() {
     let mut rep = Report::from_args("C19", "exploration");
     let tier = rep.tier;
+    let agg_cases = aggregated_units(&mut rep.violations);
+    rep.set("aggregate_direct_unit_cases", agg_cases);
     let mut st = St {
         tier,
         v: Violations::default(),
